@@ -20,6 +20,100 @@ theorem excRequest_permitted (r : Request) (e : Exc) (c : List Nat) : (excReques
 
 theorem again_isNotFound (e : Exc) : e.again.isNotFound = e.isNotFound := rfl
 
+/-- the core of `invoke_exception_view` against its declarative reading; `prior` = how the attributes read before -/
+theorem invokeCore_spec (w : World) (stmts : List Stmt) (r1 : Request) (e : Exc) (comb : List Nat) (d : Dict)
+    (reraise : Bool) (prior : String → Option Nat) (hp : ∀ k, dget d k = prior k)
+    (hc : Coherent (allRegs w.sec stmts)) :
+    (invokeCore w (registerAll (allRegs w.sec stmts)) stmts (excRequest r1 e comb) e d reraise).2.2
+        = (specCore w stmts r1 e comb reraise prior).outcome ∧
+    (invokeCore w (registerAll (allRegs w.sec stmts)) stmts (excRequest r1 e comb) e d reraise).2.1
+        = (specCore w stmts r1 e comb reraise prior).seen ∧
+    ∀ k, dget (invokeCore w (registerAll (allRegs w.sec stmts)) stmts (excRequest r1 e comb) e d reraise).1 k
+        = (specCore w stmts r1 e comb reraise prior).attr k := by
+  obtain ⟨hin1, hin2, hin3⟩ := dget_inside_block d e.id e.id
+  have hfail : ∀ k, dget (restore (popAll hidden d).2 (dset (dset (popAll hidden d).1 "exception" e.id) "exc_info" e.id)) k
+      = prior k := fun k => (dget_after_block d e.id e.id k).trans (hp k)
+  have hfailT : ∀ k, dget (restore (popAll hidden d).2
+      (dset (dset (dset (popAll hidden d).1 "exception" e.id) "exc_info" e.id) "response" w.viewResponse)) k
+      = prior k := fun k => (dget_after_block_touch d e.id e.id w.viewResponse k).trans (hp k)
+  have hok : ∀ (dd : Dict), (∀ k, dget dd k = prior k) → ∀ k,
+      dget (dset (dset dd "exception" e.id) "exc_info" e.id) k
+        = if k = "exception" ∨ k = "exc_info" then some e.id else prior k := by
+    intro dd hdd k
+    by_cases h2 : k = "exc_info"
+    · subst h2; simp [dget_dset_same]
+    · by_cases h1 : k = "exception"
+      · subst h1
+        rw [dget_dset_other _ _ _ _ (by decide), dget_dset_same]; simp
+      · rw [dget_dset_other _ _ _ _ h2, dget_dset_other _ _ _ _ h1, hdd]
+        simp [h1, h2]
+  simp only [invokeCore, callExcView, lookup_eq_spec _ _ _ hc, expectedView, specCore, excWinner, excRequest_permitted]
+  cases hf : (candidates (allRegs w.sec stmts) clsExc (excRequest r1 e comb)).find?
+      (fun x => x.holds (excRequest r1 e comb)) with
+  | none =>
+    by_cases hreg : anyRegistered (allRegs w.sec stmts) clsExc (excRequest r1 e comb) = true
+    · simp only [hreg, if_true]
+      exact ⟨by first | rfl | trivial, by first | rfl | trivial, hfail⟩
+    · simp only [hreg, Bool.false_eq_true, if_false]
+      exact ⟨by first | rfl | trivial, by first | rfl | trivial, hfail⟩
+  | some v =>
+    by_cases hs : (v.secured && !r1.permitted) = true
+    · simp only [hs, if_true]
+      exact ⟨by first | rfl | trivial, by first | rfl | trivial, hfail⟩
+    · simp only [hs, Bool.false_eq_true, if_false]
+      by_cases ht : touchOf stmts v.tag = true
+      · simp only [ht, if_true]
+        cases hb : bodyOf stmts v.tag with
+        | respond =>
+          simp only [hin1, hin2, hin3]
+          exact ⟨by first | rfl | trivial, by first | rfl | trivial, hok _ hfailT⟩
+        | returnContext =>
+          simp only [hin1, hin2, hin3]
+          exact ⟨by first | rfl | trivial, by first | rfl | trivial, hok _ hfailT⟩
+        | raise e2 =>
+          simp only [hin1, hin2, hin3]
+          exact ⟨by first | rfl | trivial, by first | rfl | trivial, hfailT⟩
+      · simp only [ht, Bool.false_eq_true, if_false]
+        cases hb : bodyOf stmts v.tag with
+        | respond =>
+          simp only [hin1, hin2, hin3]
+          exact ⟨by first | rfl | trivial, by first | rfl | trivial, hok _ hfail⟩
+        | returnContext =>
+          simp only [hin1, hin2, hin3]
+          exact ⟨by first | rfl | trivial, by first | rfl | trivial, hok _ hfail⟩
+        | raise e2 =>
+          simp only [hin1, hin2, hin3]
+          exact ⟨by first | rfl | trivial, by first | rfl | trivial, hfail⟩
+
+/-- `specRender` is `specCore` without `reraise`, with `_error_handler`'s rule on top: an `HTTPNotFound` out of the
+lookup becomes the original exception -/
+theorem specRender_eq (w : World) (stmts : List Stmt) (r : Request) (e : Exc) (comb : List Nat) (d : Dict)
+    (hw : w.ok = true) :
+    (specRender w stmts r e comb d).outcome =
+      (match (specCore w stmts r e comb false (dget d)).outcome with
+       | .error e2 => if e2.isNotFound then .error e else .error e2
+       | .ok resp => .ok resp) ∧
+    (specRender w stmts r e comb d).seen = (specCore w stmts r e comb false (dget d)).seen ∧
+    (specRender w stmts r e comb d).attr = (specCore w stmts r e comb false (dget d)).attr := by
+  simp only [World.ok, Bool.and_eq_true, Bool.not_eq_true'] at hw
+  obtain ⟨⟨hnf, hmm⟩, hfb⟩ := hw
+  simp only [specRender, specCore]
+  cases hwin : excWinner w stmts r e comb with
+  | none =>
+    by_cases hreg : anyRegistered (allRegs w.sec stmts) clsExc (excRequest r e comb) = true
+    · simp [hreg, hmm]
+    · simp [hreg, hnf]
+  | some v =>
+    by_cases hs : (v.secured && !r.permitted) = true
+    · simp [hs, hfb]
+    · cases hb : bodyOf stmts v.tag with
+      | respond => simp [hs, hb]; try rfl
+      | returnContext => simp [hs, hb]; try rfl
+      | raise e2 =>
+        by_cases hn : e2.isNotFound = true
+        · simp [hs, hb, hn, again_isNotFound]
+        · simp [hs, hb, hn, again_isNotFound]
+
 /-- `_error_handler` against the declarative rendering of `e` -/
 theorem errorHandler_spec (w : World) (stmts : List Stmt) (r : Request) (e : Exc) (comb : List Nat) (d : Dict)
     (hc : Coherent (allRegs w.sec stmts)) (hw : w.ok = true) :
@@ -29,54 +123,18 @@ theorem errorHandler_spec (w : World) (stmts : List Stmt) (r : Request) (e : Exc
         = (specRender w stmts r e comb d).seen ∧
     ∀ k, dget (errorHandler w (registerAll (allRegs w.sec stmts)) stmts (excRequest r e comb) e d).1 k
         = (specRender w stmts r e comb d).attr k := by
-  simp only [World.ok, Bool.and_eq_true, Bool.not_eq_true'] at hw
-  obtain ⟨⟨hnf, hmm⟩, hfb⟩ := hw
-  obtain ⟨hin1, hin2, hin3⟩ := dget_inside_block d e.id e.id
-  simp only [errorHandler, invokeExceptionView, callExcView, lookup_eq_spec _ _ _ hc, expectedView, specRender, excWinner,
-    excRequest_permitted]
-  cases hf : (candidates (allRegs w.sec stmts) clsExc (excRequest r e comb)).find?
-      (fun x => x.holds (excRequest r e comb)) with
-  | none =>
-    by_cases hreg : anyRegistered (allRegs w.sec stmts) clsExc (excRequest r e comb) = true
-    · simp only [hreg, if_true, hmm]
-      exact ⟨by first | rfl | trivial, by first | rfl | trivial, fun k => dget_after_block d e.id e.id k⟩
-    · simp only [hreg, Bool.false_eq_true, if_false, hnf, if_true]
-      exact ⟨by first | rfl | trivial, by first | rfl | trivial, fun k => dget_after_block d e.id e.id k⟩
-  | some v =>
-    by_cases hs : (v.secured && !r.permitted) = true
-    · simp only [hs, if_true, hfb, Bool.false_eq_true, if_false]
-      exact ⟨by first | rfl | trivial, by first | rfl | trivial, fun k => dget_after_block d e.id e.id k⟩
-    · simp only [hs, Bool.false_eq_true, if_false]
-      cases hb : bodyOf stmts v.tag with
-      | respond =>
-        simp only [hin1, hin2, hin3]
-        refine ⟨by first | rfl | trivial, by first | rfl | trivial, fun k => ?_⟩
-        simp only [attrsAfterAnswer]
-        by_cases h2 : k = "exc_info"
-        · subst h2; simp [dget_dset_same]
-        · by_cases h1 : k = "exception"
-          · subst h1
-            rw [dget_dset_other _ _ _ _ (by decide), dget_dset_same]; simp
-          · rw [dget_dset_other _ _ _ _ h2, dget_dset_other _ _ _ _ h1, dget_after_block]
-            simp [h1, h2]
-      | returnContext =>
-        simp only [hin1, hin2, hin3]
-        refine ⟨by first | rfl | trivial, by first | rfl | trivial, fun k => ?_⟩
-        simp only [attrsAfterAnswer]
-        by_cases h2 : k = "exc_info"
-        · subst h2; simp [dget_dset_same]
-        · by_cases h1 : k = "exception"
-          · subst h1
-            rw [dget_dset_other _ _ _ _ (by decide), dget_dset_same]; simp
-          · rw [dget_dset_other _ _ _ _ h2, dget_dset_other _ _ _ _ h1, dget_after_block]
-            simp [h1, h2]
-      | raise e2 =>
-        simp only [hin1, hin2, hin3, again_isNotFound]
-        by_cases hn : e2.isNotFound = true
-        · simp only [hn, if_true]
-          exact ⟨by first | rfl | trivial, by first | rfl | trivial, fun k => dget_after_block d e.id e.id k⟩
-        · simp only [hn, Bool.false_eq_true, if_false]
-          exact ⟨by first | rfl | trivial, by first | rfl | trivial, fun k => dget_after_block d e.id e.id k⟩
+  obtain ⟨h1, h2, h3⟩ := invokeCore_spec w stmts r e comb d false (dget d) (fun _ => rfl) hc
+  obtain ⟨g1, g2, g3⟩ := specRender_eq w stmts r e comb d hw
+  rw [g1, g2, g3, ← h1, ← h2]
+  simp only [errorHandler, invokeExceptionView]
+  rcases hx : invokeCore w (registerAll (allRegs w.sec stmts)) stmts (excRequest r e comb) e d false with ⟨d', seen, out⟩
+  rw [hx] at h3
+  cases out with
+  | ok resp => exact ⟨rfl, rfl, h3⟩
+  | error e2 =>
+    by_cases hn : e2.isNotFound = true
+    · simp only [hn, if_true]; exact ⟨by first | rfl | trivial, by first | rfl | trivial, h3⟩
+    · simp only [hn, Bool.false_eq_true, if_false]; exact ⟨by first | rfl | trivial, by first | rfl | trivial, h3⟩
 
 /-- a `find?` over `P ++ S ++ rest` is decided inside `P ++ S` as soon as something there satisfies the predicate -/
 theorem find?_in_prefix {α} (p : α → Bool) (P rest : List α) (x : α) (hx : x ∈ P) (hp : p x = true) :
